@@ -146,6 +146,15 @@ func (u *Upstream) Close(ctx context.Context, opts ...UpstreamCloseOption) error
 }
 
 func (u *Upstream) closeWithError(ctx context.Context, causeError error, opts ...UpstreamCloseOption) error {
+	// resume swaps u.wireConn under u.mu while Close may be running
+	u.mu.RLock()
+	wireConn := u.wireConn
+	u.mu.RUnlock()
+	return u.closeOn(ctx, wireConn, causeError, opts...)
+}
+
+// closeOn closes the stream with a close request on wireConn. flush calls it with u.mu held.
+func (u *Upstream) closeOn(ctx context.Context, wireConn *wire.ClientConn, causeError error, opts ...UpstreamCloseOption) error {
 	defer u.cancel()
 	if u.isClosed() {
 		return nil
@@ -156,10 +165,10 @@ func (u *Upstream) closeWithError(ctx context.Context, causeError error, opts ..
 		v(&opt)
 	}
 
-	// Read the two totals atomically: closeWithError runs without u.mu when it is reached from
+	// Read the two totals atomically: closeOn runs without u.mu when it is reached from
 	// Close, so it must not walk the send buffer (stateWithoutLock) while the flush loop may
 	// still be appending to it.
-	resp, err := u.wireConn.SendUpstreamCloseRequest(ctx, &message.UpstreamCloseRequest{
+	resp, err := wireConn.SendUpstreamCloseRequest(ctx, &message.UpstreamCloseRequest{
 		StreamID:            u.ID,
 		TotalDataPoints:     atomic.LoadUint64(&u.totalDataPoints),
 		FinalSequenceNumber: atomic.LoadUint32(&u.sequence.Current),
@@ -462,7 +471,7 @@ func (u *Upstream) flush(ctx context.Context) error {
 	}
 
 	if err := u.validateState(); err != nil {
-		u.closeWithError(u.ctx, err)
+		u.closeOn(u.ctx, u.wireConn, err)
 		return err
 	}
 
